@@ -345,13 +345,15 @@ QUICK_MASTERS = [
     ["a", "B"], ["A", "b", "C"], ["ab", "B", "x y"], ["Ab", "a", "c_d"], ["B", "x y"],
     ["a", "B", "ab", "c_d"], ["a", "B", "ab", "c_d", "x y"],
     ["ab", "Ab"],  # names equal up to case (outside the well-formed domain, correspondence only)
-    ["weg", "stra\xdfe", "strasse"], ["grob", "Ma\xdf", "fein"],
+    ["weg", "stra\xdfe", "strasse"], ["grob", "Ma\xdf", "fein"], ["10%", "50%", "%s_only"],
 ]
 MORE_MASTERS = [["c_d", "Ab"], ["x y", "a", "B"], ["B", "ab", "c_d"], ["a", "ab", "Ab"], ["x y", "X Y"],
                 ["A", "B", "C", "D"], ["a", "b"], ["Ab", "c_d", "x y", "B", "a"]]
 ODD_NAMES = ["none", "Auto", "*a", "a+b", "+", "a*", "\xc9", "\xe9", "A+B", "", "zz", "b",
              # names that str.lower() keeps apart but str.casefold() would merge (sharp s)
-             "stra\xdfe", "strasse", "Ma\xdf", "mass", "STRASSE"]
+             "stra\xdfe", "strasse", "Ma\xdf", "mass", "STRASSE",
+             # names special to Python's string formatting (the error message lists the alternatives)
+             "10%", "%s_only", "all%d", "%(x)s", "{0}"]
 
 
 def star_subsets(n, rng, limit):
@@ -608,6 +610,56 @@ class FetchParsedDeprecated(FetchParsed):
             warnings.showwarning = old
 
 
+class TwoStepMerge(Stream):
+    """a '.multiple = True' choice merged in two steps - working = master.fetch(s1), then working.fetch(s2) - selects what
+    the one-step merge master.fetch(sources=[s1, s2]) selects (the working parameters of a GUI are merged again and again).
+    Oracle only."""
+    name = "two_step_merge"
+    cluster = "Choice"
+
+    def __init__(self, ctx):
+        super().__init__(ctx)
+        self.fp = import_freephil()
+
+    def cases(self, rng, tier):
+        alts = ["a", "b", "c", "x y"]
+        for _ in range(150 if tier == "quick" else 2000):
+            n = rng.randint(2, 4)
+            star = rng.randrange(n + 1)
+            mw = " ".join(("*" if i == star else "") + ('"%s"' % v if " " in v else v) for i, v in enumerate(alts[:n]))
+            def src():
+                v = rng.choice(alts[:n])
+                return "c = %s\n" % ('"%s"' % v if " " in v else rng.choice([v, "*" + v]))
+            yield {"m": "c = %s\n.type = choice(multi=%s)\n.multiple = True\n.optional = %s\n" % (
+                mw, rng.random() < 0.4, rng.choice(["None", "True"])), "s": [src(), src()]}
+
+    def impl(self, case):
+        fp = self.fp
+        try:
+            m = fp.parse(case["m"])
+            s1, s2 = (fp.parse(t) for t in case["s"])
+            one = m.fetch(sources=[s1, s2]).extract().c
+            two = m.fetch(source=fp.parse(case["s"][0])).fetch(source=fp.parse(case["s"][1])).extract()
+            two = getattr(two, "c", "<attribute missing>")
+        except (RuntimeError, fp.Sorry) as e:
+            return ["refused", exc_class(e)]
+        return ["ok", repr(one), repr(two)]
+
+    def requests(self, case, o):
+        return []
+
+    def model(self, case, replies, o):
+        return o
+
+    def prop(self, case, o):
+        if o[0] == "ok" and o[1] != o[2]:
+            return "merged in two steps the selections are %s, in one step %s" % (o[2], o[1])
+        return None
+
+    def tag(self, case, o):
+        return o[0]
+
+
 class FetchDirect(Stream):
     """case = [master words [[value,q,line]..], source words, multi, opt, ignore_errors]
     choice_converters.fetch(source_words, master, ignore_errors) and from_words on its result."""
@@ -827,7 +879,7 @@ class TypeStr(Stream):
 
 SPEC = {
     "clusters": ["Tok", "Choice"],
-    "streams": [CharTable, FetchParsed, FetchParsedDeprecated, FetchDirect, AsWords, TypeStr],
+    "streams": [CharTable, FetchParsed, FetchParsedDeprecated, TwoStepMerge, FetchDirect, AsWords, TypeStr],
     "rule": "fetch_parsed: fixed alternative lists (2-5 names over a, B, ab, Ab, c_d, 'x y'; all default-star subsets for "
             "lists up to 3, a sample beyond) x every source spelling generated relative to the list (starred subsets, "
             "starred names alone, bare single names in 4 case variants, quoted names, None/Auto spellings, + forms glued and "
